@@ -111,9 +111,10 @@ def run_case(case):
         os.environ.pop("CUPCAKE_ENABLE_MULTIPROCESSING", None)
     np.random.seed(case["rng_seed"])
     random.seed(case["rng_seed"])
-    kw = dict(window_size=W, num_clusters=K, sparsity_weight=run.lam, label_switching_cost=run.beta,
-              iteration_limit=case["limit"], min_meaningful_covariance=case["eps"], num_processors=case.get("nproc", 1),
-              min_cluster_size=case["m"], biased_covariance=_biased_form(case))
+    itype = {"np.int64": np.int64, "np.int32": np.int32, "np.uint8": np.uint8}.get(case.get("int_form"), int)
+    kw = dict(window_size=itype(W), num_clusters=itype(K), sparsity_weight=run.lam, label_switching_cost=run.beta,
+              iteration_limit=itype(case["limit"]), min_meaningful_covariance=case["eps"], num_processors=itype(case.get("nproc", 1)),
+              min_cluster_size=itype(case["m"]), biased_covariance=_biased_form(case))
     run.result = None
     run.exc = None
     arg = data
